@@ -27,6 +27,15 @@ def op_chains(rng, q, focus):
                 ops.append(("RC",))
                 if focus == "C14":
                     ops.append(("COMM", rng.choice([1, n - 1, rng.randrange(0, 2 * n + 1), n // 2, n + 2])))
+            elif x < 0.78 and focus == "C13":
+                # a history on ONE object: rotate (look only), edit the object in place, rotate again by a congruent offset
+                k = rng.randrange(1, max(2, n))
+                ops.append(("RPEEK", "R", k, rng.random() < 0.3))
+                for _e in range(rng.randint(1, 2)):
+                    ops.append(("EDIT", rng.choice(["id", "feat", "loc", "track", "delfeat"]), rng.randrange(1000)))
+                d, k2 = rng.choice([("R", k), ("R", k + n), ("L", n - k), ("R", k - n), ("L", -k)])
+                ops.append(("RPEEK", d, k2, False))
+                ops.append((d, k2))
             elif x < 0.74 and focus in ("C14", "C15"):
                 # a history on ONE object: look, edit in place, look again (rec >> 0 and rec << n return the object itself)
                 if focus == "C15":
@@ -54,8 +63,11 @@ def op_chains(rng, q, focus):
                     i = rng.randrange(len(qy))
                     qy = qy[:i] + rng.choice("ACGT") + qy[i + 1:]
                 ops.append(("IN", qy))
-            elif x < 0.95:
+            elif x < 0.9:
                 ops.append(("SL", rng.randint(-n - 2, n + 2), rng.randint(-n - 2, n + 2)))
+            elif x < 0.95:
+                bound = lambda: None if rng.random() < 0.35 else rng.randint(-n - 3, n + 3)   # noqa: E731
+                ops.append(("SLS", bound(), bound(), rng.choice([None, 1, 2, 3, -1, -1, -2, -3, n, -n])))
             else:
                 ops.append(("ADD", rng.choice(["left", "right"]), rng.choice(["str", "Seq", "SeqRecord", "CircularRecord", "slice"])))
         out.append((rec, ops))
@@ -146,6 +158,9 @@ def replay_case(rec):
     obj = project.build({"seq": first["seq"], "feats": [{"lab": f["lab"].split("|")[0], "parts": f["parts"]} for f in first["feats"]],
                          "track": first["track"], "meta": ""}, "pastend", ftype=None)
     ops = []
+    if tr and tr[0].get("ops"):
+        ops = [tuple(o) for o in __import__("json").loads(tr[0]["ops"])]
+        tr = []
     for e in tr:
         if e["ev"] == "Rot":
             ops.append((e["dir"], e["k"]))
